@@ -631,6 +631,16 @@ pub fn run(c: &mut Ctx) {
             fl.hit(c, "harness self-check: the window-end values are misplaced", "");
         }
     }
+    {
+        // dense around the epoch and both range ends, for the SystemTime conversion (Ok / Err branch of
+        // duration_since, the borrow of the Err branch, a leap second carried into the next second)
+        for (d, secs) in [(NaiveDate::from_ymd_opt(1969, 12, 31).unwrap(), 86_399u32), (NaiveDate::from_ymd_opt(1969, 12, 31).unwrap(), 86_398), (NaiveDate::from_ymd_opt(1970, 1, 1).unwrap(), 0), (NaiveDate::from_ymd_opt(1970, 1, 1).unwrap(), 1), (NaiveDate::MIN, 0), (NaiveDate::MIN, 1), (NaiveDate::MAX, 86_399), (NaiveDate::MAX, 86_398)] {
+            for f in [0u32, 1, 2, 499_999_999, 500_000_000, 999_999_998, 999_999_999, 1_000_000_000, 1_000_000_001, 1_500_000_000, 1_999_999_999] {
+                vals.push(NaiveDateTime::new(d, NaiveTime::from_num_seconds_from_midnight_opt(secs, 0).unwrap().with_nanosecond(f).unwrap()));
+            }
+        }
+    }
+    let n_hand = vals.len();
     let n_vals = c.n(200_000, 2_400_000);
     for _ in 0..n_vals {
         let v = gen_dt(c, &pts);
@@ -774,8 +784,11 @@ pub fn run(c: &mut Ctx) {
                     fl.hit(c, "and_utc().naive_utc() is not the identity", &key);
                 }
             }
-            _ => {
-                // SystemTime
+            _ => {}
+        }
+        // SystemTime: a quarter of the random values, every hand-made one
+        if i % 4 == 3 || i < n_hand {
+            {
                 let st = guard(|| SystemTime::from(u));
                 c.op(&format!("ts.to_st {key}"), &match &st { Ok(t) => { let (s, n) = st_obs(*t); format!("{s} {n}") } Err(()) => "panic".into() });
                 match &st {
@@ -794,6 +807,12 @@ pub fn run(c: &mut Ctx) {
                         }
                     }
                     Err(()) => fl.hit(c, "SystemTime::from(DateTime) panicked", &format!("ts.to_st {key}")),
+                }
+                // the conversion is generic in the zone: a fixed offset must not enter
+                let off = gen_off(c);
+                let zf = u.with_timezone(&FixedOffset::east_opt(off).unwrap());
+                if guard(|| SystemTime::from(zf)).map(st_obs) != st.map(st_obs) {
+                    fl.hit(c, "SystemTime::from(DateTime<FixedOffset>) depends on the offset", &format!("ts.to_st {key} (offset {off})"));
                 }
             }
         }
@@ -845,6 +864,13 @@ pub fn run(c: &mut Ctx) {
     // ======== SystemTime -> DateTime<Utc> =======================================================
     let n_st = c.n(80_000, 800_000);
     let mut sts: Vec<(i64, u32)> = vec![(0, 0), (0, 1), (-1, 999_999_999), (-1, 0), (-1, 1), (1, 0), (lo, 0), (hi, 999_999_999), (lo - 1, 999_999_999), (hi + 1, 0), (i64::MIN, 0), (i64::MIN, 1), (i64::MIN + 1, 0), (i64::MAX, 999_999_999), (i64::MAX, 0)];
+    for s0 in [0i64, lo, hi, -86_400, 86_400, i64::MIN / 1_000_000_000, i64::MAX / 1_000_000_000] {
+        for ds in -3i64..=3 {
+            for n in [0u32, 1, 2, 499_999_999, 500_000_000, 999_999_998, 999_999_999] {
+                sts.push((s0 + ds, n));
+            }
+        }
+    }
     for _ in 0..n_st {
         let s = gen_secs(c, &pts);
         let n = match c.rng.below(3) {
